@@ -42,9 +42,9 @@ def one(cat, rng, stack, cover):
         b.s.lines[na].sig = "form-changes-index:%s@%s" % (f, b.entry)
         b.read("a", ka, sig="form-changes-read:%s@%s" % (f, b.entry))
         if cat["caps"]["heap"]:
-            ht = b.raw("heap t", None, cmp="heap", shape="heap")
+            ht = b.raw("heap t", None, cmp="none", shape="heap")
             ha = b.raw("heap a", ("rel", ht, lambda got, other: None if used(got) == used(other) else "used bytes differ", "same number of bytes stored"),
-                       cmp="heap", sig="form-changes-bytes:%s@%s" % (f, b.entry), shape="heap")
+                       cmp="none", sig="form-changes-bytes:%s@%s" % (f, b.entry), shape="heap")
     b.readall("a", sig="form-changes-read@" + b.entry)
     b.s.nontrivial = len(forms_seen) >= 2
     return b.s
